@@ -90,10 +90,12 @@ REG.contract(K + "Subterm.__eq__#other", of=K + "Subterm.__eq__", params={"other
 REG.contract(K + "Subterm.__ne__", params={"other": K + "Subterm"}, returns="bool", tags=TAGS,
              ensures=["result == (not (self.efactors == other.efactors))"])
 
-FUNCTIONS += [K + "Subterm." + f for f in ("__init__", "can_absorb", "absorb", "__eq__", "__eq__#other", "__ne__")]
+REG.contract(K + "Subterm.__hash__", returns="int", tags=TAGS, ensures=["result == hash((Subterm, self.efactors))"])
+
+FUNCTIONS += [K + "Subterm." + f for f in ("__init__", "can_absorb", "absorb", "__eq__", "__eq__#other", "__ne__", "__hash__")]
 ASSUMPTIONS += ["Python sets of ExpandedFactor objects are z3 sets over the datatype EF(flag, factor): set membership uses the field-wise "
                 "equality proved for ExpandedFactor.__eq__ above (and the matching __hash__); cardinality is an uninterpreted function "
                 "with the ground facts of vf/pyvc/sets.py (len >= 0 and 0 iff empty; |a - b| = |a| - |b| when b is a subset of a; "
                 "|s + {x}| = |s| + [x not in s]; a one-element set equals {its only listed element})",
                 "Subterm.__init__ is verified for a set argument (its callers inside contrasts.py also pass lists of distinct factors)",
-                "Subterm.__hash__ (hash of a frozenset) is not under contract"]
+                "hash() of a frozenset is an uninterpreted function of its members (equal sets hash alike)"]
